@@ -59,7 +59,7 @@ MUTANTS = [
     ("lower-ascii-only", "core/src/tokenization/text.rs", "                *ch = ch.to_lowercase().next().unwrap_or(*ch);\n            }\n        }\n        self\n    }\n}\n\n\nimpl<W, T, C> fmt::Debug", "                *ch = ch.to_ascii_lowercase();\n            }\n        }\n        self\n    }\n}\n\n\nimpl<W, T, C> fmt::Debug", "C11 C15"),
     ("highlight-slices-normalised-chars", "core/src/search/highlight.rs", "        title: Text { words, source, .. },", "        title: Text { words, chars: source, .. },", "C02"),
     ("top-list-by-ascending-rating", "core/src/search/mod.rs", "                    r2.rating\n                        .cmp(&r1.rating)", "                    r1.rating\n                        .cmp(&r2.rating)", "C12 C06"),
-    ("french-compose-loses-E-acute", "core/src/lang/lang_french.rs", "    (\"É\", \"É\"),\n", "", "C11 C02 C15"),
+    ("french-compose-loses-E-acute", "core/src/lang/lang_french.rs", "    (\"E\u0301\", \"\u00c9\"),\n", "", "C11 C02 C15"),
     ("bridge-newline-framing", "wasm/src/lib.rs", "            concat.push('\\0');", "            concat.push('\\n');", "C02 C20"),
     ("normalize-window-1", "core/src/lang/normalize.rs", "const NORM_MAX_PATTERN_LEN: usize = 2;", "const NORM_MAX_PATTERN_LEN: usize = 1;", "C02 C11 C15"),
     ("jaccard-merge-cursor-le", "core/src/matching/jaccard/mod.rs", "while i1 < set1.len() && i2 < set2.len() {", "while i1 <= set1.len() && i2 < set2.len() {", "C19 C17"),
